@@ -447,6 +447,10 @@ func (s *Server) cmdEvalUnified(scriptIsSha bool, msg *Message) (res resp.Value,
 	if err != nil {
 		return
 	}
+	// Deferred first so that it runs last: the interpreter must not be back
+	// in the pool (where a non-atomic script may pick it up right away)
+	// while the calls deferred below still touch it.
+	defer s.luapool.Put(luaState)
 	luaDeadline := lua.LNil
 	if msg.Deadline != nil {
 		dlTime := msg.Deadline.GetDeadlineTime()
@@ -456,7 +460,6 @@ func (s *Server) cmdEvalUnified(scriptIsSha bool, msg *Message) (res resp.Value,
 		defer luaState.RemoveContext()
 		luaDeadline = lua.LNumber(float64(dlTime.UnixNano()) / 1e9)
 	}
-	defer s.luapool.Put(luaState)
 
 	keysTbl := luaState.CreateTable(int(numkeys), 0)
 	for i = 0; i < numkeys; i++ {
